@@ -1713,6 +1713,19 @@ class Interp:
         if isinstance(c, ClassV):
             return c  # Generic[...] subscription
         k = self.eval(n.slice, fr)
+        if c is None:
+            raise Raised("TypeError", n, fr.fi, "'NoneType' object is not subscriptable")
+        if isinstance(c, TV) and isinstance(k, int) and not isinstance(k, bool):
+            try:
+                _sh = E.shape(c.t, self.world.env if self.world else E.Env())
+            except (E.ShapeError, AnalysisError):
+                _sh = None
+            if _sh is not None and _sh[0] == "fam":
+                # one member of a neighbourhood family picked by its position: which one it is
+                # depends on the order in which the links were added
+                self.event("order-pick", n, f"`{short(n, 60)}` picks member {k} of the {_sh[1]} family by position: "
+                                            "the result depends on insertion order", data=_sh[1])
+                return TV(E.S(f"pick[{_sh[1]}][{k}]({E.fmt(c.t, 40)})"), 0, True)
         if isinstance(c, ShapeV):
             if not isinstance(k, int) or isinstance(k, bool):
                 raise self.err(n, "shape subscripted with a non-constant")
@@ -2325,6 +2338,14 @@ class Interp:
             canon = CASADI_ALIAS.get(fn_)
         else:
             canon = None
+        if lib == "casadi" and fn_ in ("hcat", "horzcat"):
+            items = self.iterate(args[0], n, fr) if fn_ == "hcat" else list(args)
+            env_ = self.world.env if self.world else E.Env()
+            for x in items:
+                if isinstance(x, TV) and E.shape(x.t, env_) != E.SC:
+                    raise Raised("RuntimeError", n, fr.fi, "horzcat: dimension mismatch (a column of several rows "
+                                                           "next to a scalar)")
+            return self.vcat(items, n, fr)  # a row of scalars: accepted wherever the column is
         if lib == "numpy" and fn_ == "size" and len(args) == 1 and not kwargs:
             v = args[0]
             if isinstance(v, TV):
